@@ -5,7 +5,7 @@ goroutines, with a large commit time.  TLC (TxnSerial with required = all) accep
 committed and the final contents are the serial union."""
 import collections, json, os, sys
 sys.path.insert(0, os.path.dirname(os.path.abspath(__file__)))
-import vlib, txnlib, conclib, _conc
+import vlib, txnlib, conclib, _conc, _txncfg
 
 META = dict(
     property_id="C04", engine="TxnSerial",
@@ -79,6 +79,24 @@ def run(c):
         c.cov["traces_validated_against_impl"] += len(hists)
         if vi == 0 and traces:
             c.sample(dict(schedule=traces[0][1].get("sched"), history=hists[0]))
+    # directed history (deterministic): T_a creates a store and adds key 1; T_b opens the new store, adds key 2 and commits
+    # first; T_a commits: it lost the race for the first root and must merge.  Disjoint keys: both must commit.
+    g = _txncfg.gen(c, "r", MaxTxns=1, MaxOps=1, Keys=2)
+    dtr = txnlib.run_driver(c, binp, "stores", _txncfg.cfg(c, "directed", 0, g, faults=False))
+    for n, h, evs in dtr:
+        if not h.get("directed"):
+            continue
+        total += 1
+        failed = [e for e in evs if e.get("ev") == "CommitEnd" and not e.get("ok")]
+        obs = [e for e in evs if e.get("ev") == "Observe"]
+        keys = sorted(x["k"] for x in (obs[-1].get("items") or [])) if obs else []
+        place = h["program"]["stores"][0]["Placement"]
+        if failed or keys != [1, 2]:
+            why = ("commit-failed:%s" % ("store-not-found" if "not found" in failed[0].get("note", "") else "other")) if failed else "union-differs"
+            sig = "disjoint|directed-creator-loses-first-root|%s|%s" % (place, why)
+            classes[sig] += 1
+            c.report(sig, "creator and opener of a new store add disjoint keys: %s; store holds %s (%s)" % (why, keys, [e.get("note", "")[:120] for e in failed]),
+                     dict(trace=n, program=h.get("program"), events=evs))
     c.cov.update(dict(evaluations=total, distinct_nontrivial=total, rejection_classes=dict(classes),
                       rule="one case = one history of 2-3 concurrent disjoint writers; every one is non-trivial (all write)"))
 
